@@ -50,13 +50,16 @@ def flagsOf (d : Dims) (f : Int → Bool) : Json :=
   Json.arr ((tabulate d (fun j k l => f (radius2Of d j k l))).flatMap (fun a => a.flatMap (fun b => b.map (fun (v : Bool) => ((if v then 1 else 0 : Nat) : Json)))))
 
 /-- `tail_in = tail3 ker m_in`, `tail_out = tail3 ker m_out` and, per bin, whether the hypotheses of
-`soft_gain_inside` / `soft_gain_outside` hold for that bin's squared radius -/
+`soft_gain_inside` / `soft_gain_outside` hold for that bin's squared radius; `mono_axes`: per axis, whether the ball stays off
+both faces of the mask box (`monoAxisOk`, the hypothesis of `Props/C12.soft_eff_gain_mono_step`) -/
 def margins (j : Json) (d : Dims) (r : Int) (sigma : Float) : List (String × Json) :=
   match kernelOf sigma, getInt? j "m_in", getInt? j "m_out" with
   | some ker, some mi, some mo =>
     [("tail_in", (bitsOfFloat (tail3 ker mi) : Json)), ("tail_out", (bitsOfFloat (tail3 ker mo) : Json)),
      ("tail_reach", (bitsOfFloat (tail3 ker (3 * ((trunc sigma : Nat) : Int) * ((trunc sigma : Nat) : Int))) : Json)),
-     ("inside", flagsOf d (fun A => fitsInside A mi r)), ("outside", flagsOf d (fun A => fitsOutside A mo r))]
+     ("inside", flagsOf d (fun A => fitsInside A mi r)), ("outside", flagsOf d (fun A => fitsOutside A mo r)),
+     ("mono_axes", Json.arr #[((if monoAxisOk d.nx r then 1 else 0 : Nat) : Json), ((if monoAxisOk d.ny r then 1 else 0 : Nat) : Json),
+        ((if monoAxisOk d.nz r then 1 else 0 : Nat) : Json)])]
   | _, _, _ => []
 
 /-! ### the whole filter: `np.real(ifftn(fftn(x) * ifftshift(mask)))` executed on the model's DFT -/
